@@ -108,3 +108,8 @@ Definition run_c18 (ws : list Z) : list Z :=
 
 Definition run_c18_split (perm : list Z) (h : Z) (X : list (list Z)) (Y : list Z) : list Z :=
   run_split perm h X Y ++ run_split_merge perm h X Y.
+
+(* the same with halt computed by the model from the percentage (an encoded double, see [float_in]) *)
+Definition run_c18_split_p (perm : list Z) (pct : list Z) (X : list (list Z)) (Y : list Z) : list Z :=
+  let h := Z.of_nat (halt (length X) (float_in pct)) in
+  h :: run_split perm h X Y ++ run_split_merge perm h X Y.
